@@ -1223,7 +1223,22 @@ class Interp:
         mutable = isinstance(node, (ast.List, ast.Dict, ast.Set, ast.ListComp, ast.DictComp, ast.SetComp)) or (
             isinstance(node, ast.Call) and isinstance(node.func, ast.Name) and node.func.id in ("list", "dict", "set", "bytearray"))
         if not mutable:
-            return self.ev(node, dfr)
+            if not any(isinstance(n, (ast.Call, ast.Await)) for n in ast.walk(node)):
+                return self.ev(node, dfr)
+            # a default that calls something is evaluated ONCE, when the function is defined (import time): the same value for every
+            # call, computed no later than anything the verified function does (matters for clocks, random tokens, environment reads)
+            key = ("default_once", fv.qualname, pname)
+            if key not in self.path.globals:
+                from . import libmodels
+                now = libmodels.clock_now(self)
+                t_def = z3.Int(fresh("clock_at_definition"))
+                self.path.assume(t_def <= now)
+                self.path.ghost["clock"] = t_def
+                try:
+                    self.path.globals[key] = self.ev(node, dfr)
+                finally:
+                    self.path.ghost["clock"] = now
+            return self.path.globals[key]
         from .values import VAny
         key = ("default", fv.qualname, pname)
         if key not in self.path.globals:
